@@ -13,7 +13,7 @@ def consts(**kw):
         "WritePolicy": '= "write_all"', "UdpPolicy": '= "buffered"', "PongPolicy": '= "cancel_safe"',
         "MaxErr": "= 0", "MaxPending": "= 0", "MaxCancel": "= 0", "MaxTimeout": "= 0",
         "MaxWrites": "= 0", "WLens": "<- None", "FrameOK": "<- FrameAny", "KeepHist": "= TRUE", "MaxQueued": "= 2", "Truncation": "= FALSE", "WriteFailures": "= FALSE", "FlushPolicy": '= "flush"', "MaxBlock": "= 0",
-        "EmSmallFills": "= 3", "EmSizes": "<- S13458", "EmPong": "<- None", "EmWacc": "<- None",
+        "EmSmallFills": "= 3", "EmSizes": "<- S13458", "EmPong": "<- None", "EmWacc": "<- None", "EmBp": "= FALSE",
     }
     c.update(kw)
     return c
@@ -90,10 +90,11 @@ def emit_sim(chk, name, c, num, seed, min_frames=10, depth=900, timeout=1500):
     return nd, n
 
 
-def replay(chk, nd, seed):
-    """spec -> impl: every behaviour is executed on the real Framed (both size modes)."""
+def replay(chk, nd, seed, wsq=False):
+    """spec -> impl: every behaviour is executed on the real Framed (both size modes).  wsq: websocket behaviours on the
+    scripted transport that queues writes like the websocket adaptor (poll_write accepts, poll_flush hands on or is Pending)."""
     outp = nd + ".replay.out"
-    harness(["conn-replay", "--in", nd, "--seed", str(seed)], stdout_path=outp)
+    harness(["conn-replay", "--in", nd, "--seed", str(seed)] + (["--wsq", "1"] if wsq else []), stdout_path=outp)
     summary = None
     with open(outp) as f:
         for line in f:
@@ -301,6 +302,7 @@ def check_C07(chk):
 
 def check_C09(chk):
     """InSim version gate."""
+    from checks_data import builder_gate
     chk.rule = ("TLC explores version-9 / other-version / other packets with the gate on and off (InOrder with Expected = "
                 "version_err iff gate on and version # 9); behaviours are replayed with concrete VER frames; a deterministic "
                 "sweep sends all 256 version values in first / middle / last position, gate on and off, both flavours and "
@@ -315,6 +317,9 @@ def check_C09(chk):
     sample_trace(chk, p)
     trace_validate(chk, "c09_sweep", p, "version sweep")
     chk.exhaustive = True
+    # "only when enabled": the switch is Builder::verify_version (on by default); whatever the builder was told, the connection it
+    # returns must behave accordingly (TCP / UDP, blocking / tokio)
+    builder_gate(chk)
     chk.assumptions += ["the relay transport (which needs the Internet) is not exercised"]
 
 
@@ -467,6 +472,13 @@ def check_C20(chk):
                                        MaxWrites="= 2", WLens="<- W4", MaxBlock="= 2"), needs=("WsBlock", "WsUnblock", "WriteAccept"))
     mc(chk, "c20_mut_noflush", consts(Transports="<- TWs", Classes="<- ClsKa", Flavors="<- OnlyTokio", Verifies="<- GateOn", MaxFrames="= 1",
                                       MaxWrites="= 2", WLens="<- W4", MaxBlock="= 1", FlushPolicy='= "no_flush"'), expect_violation="AllLeft")
+    # ... and the connection's side of it, deterministically: behaviours in which the socket blocks and unblocks while a reply or
+    # a user frame is on its way, with Pending flushes and cancelled reads, replayed on the real tokio Framed over a scripted
+    # transport that queues writes the way the websocket adaptor does
+    nd, n = emit(chk, "c20_emit_bp", consts(Transports="<- TWs", Classes="<- ClsKa", Flavors="<- OnlyTokio", Verifies="<- GateOn", MaxFrames="= 1",
+                                            FrameOK="<- FrameReal", MaxWrites="= 1", WLens="<- W8", MaxBlock="= 1", MaxPending="= 1", MaxCancel="= 1",
+                                            MaxQueued="= 1", EmSmallFills="= 3", EmSizes="<- S134", EmBp="= TRUE"), timeout=900)
+    replay(chk, nd, chk.seed + 9, wsq=True)
     live(chk, "c20_live", consts(Transports="<- TWs", Classes="<- ClsUdp", Flavors="<- OnlyTokio", Verifies="<- GateOn", MaxFrames="= 2",
                                  KeepHist="= FALSE", MaxQueued="= 1"))
     nd, n = emit(chk, "c20_emit", consts(Transports="<- TWs", Classes="<- ClsPong", Flavors="<- OnlyTokio", Verifies="<- GateOn",
